@@ -3,7 +3,7 @@
     ones included); what -g, -p, -t and -s do to the fields; how the general path stages a
     record; the whole record under plain options.  See DESIGN.md §3 C01. *)
 From TucModel Require Import Base.Bytes Base.ListX Model.Bounds Model.BoundsParse Model.Scan Model.Opt
-     Model.CutBytes Model.CutStr Spec.Fields Proofs.C06 Proofs.ScanSplit Proofs.Plain Proofs.C01More Proofs.PlainMulti.
+     Model.CutBytes Model.CutStr Spec.Fields Proofs.C06 Proofs.ScanSplit Proofs.Plain Proofs.C01More Proofs.PlainMulti Proofs.Greedy.
 
 (** the byte ranges pushed by fill_with_fields_locations cut a non-empty record into
     pieces ps with  p1 ++ d ++ p2 ++ ... ++ pk = record  where every delimiter occurrence used
@@ -142,6 +142,39 @@ Theorem C01_record_as_a_function_of_its_fields :
             end).
 Proof. exact general_record_value. Qed.
 
+(** ... and under -g (with any of -t, -p, -s, -m, -j, -r, format text, fallbacks): the fields
+    counted are the first field, the non-empty ones and the last ([kept_v] gives their
+    positions among all the fields of the record; as values they are [squeeze]); a bound that
+    resolves to the counted fields s+1..e prints every field of the record from the first of
+    them to the last of them joined by the (replacement) delimiter - so the runs of
+    delimiters between them are printed whole, or each delimiter of a run replaced under -r *)
+Theorem C01_record_as_a_function_of_its_fields_greedy :
+  forall (o : opt) (line0 : bytes),
+    greedy_opts o -> Forall item_nz (items (o_bounds o)) ->
+    cut_str o line0
+    = Some (let d := o_delim o in
+            let line1 := match o_trim o with Some k => trim_lit k d line0 | None => line0 end in
+            match line1 with
+            | [] => ROk (if o_only_delimited o then [] else [o_eol o])
+            | _ =>
+                let ps := if o_compress o then squeeze (split d line1) else split d line1 in
+                let ks := kept_v ps in
+                if o_only_delimited o && Nat.eqb (length ks) 1 then ROk []
+                else match effective_bounds o (length ks) with
+                     | None => RErr
+                     | Some bs =>
+                         match spec_items_g ps ks (o_fallback o) (o_join o) (rep_of' o) bs with
+                         | Some x => ROk (x ++ [o_eol o])
+                         | None => RErr
+                         end
+                     end
+            end).
+Proof. exact general_record_value_greedy. Qed.
+
+Theorem C01_greedy_counted_fields_are_the_squeezed_ones :
+  forall ps : list bytes, map (fun k => nth k ps []) (kept_v ps) = squeeze ps.
+Proof. exact kept_v_is_squeeze. Qed.
+
 (** the slice from the start of a bound's first field to the end of its last is those
     fields joined by the delimiter, for any delimiter; -r rewrites exactly the separators *)
 Theorem C01_replacement_rewrites_exactly_the_separators_any_delimiter :
@@ -188,3 +221,15 @@ Example C01_value_example :
         [Bound (mkB (SSome 2) (SSome 2) false None); Bound (mkB (SSome 1) (SSome 1) true None)]
      = Some [98;45;45;97]%N.
 Proof. split; reflexivity. Qed.
+Print Assumptions C01_record_as_a_function_of_its_fields_greedy.
+Print Assumptions C01_greedy_counted_fields_are_the_squeezed_ones.
+
+(** non-vacuity: a--b-c under -g: counted fields a, b, c at positions 0, 2, 3; the bound 1:2
+    prints  a--b  (the run whole), and  a//b  under -r / *)
+Example C01_greedy_example :
+  kept_v (split [45]%N [97;45;45;98;45;99]%N) = [0; 2; 3]
+  /\ spec_items_g (split [45]%N [97;45;45;98;45;99]%N) [0; 2; 3] None false [45]%N
+        [Bound (mkB (SSome 1) (SSome 2) true None)] = Some [97;45;45;98]%N
+  /\ spec_items_g (split [45]%N [97;45;45;98;45;99]%N) [0; 2; 3] None true [47]%N
+        [Bound (mkB (SSome 1) (SSome 2) true None)] = Some [97;47;47;98]%N.
+Proof. repeat split; reflexivity. Qed.
